@@ -166,6 +166,67 @@ def check_entry(eng, obl, out, which):
     obl.samples.append({"function": tag, "paths": len(res), "example_events": [(e[0], e[1][0]) for e in res[-1].events][:8] if res else []})
 
 
+class _All(set):
+    def __contains__(self, x):
+        return True
+
+
+def check_lib_entries(eng, obl, out):
+    """lib.rs: the (filtered) item is emitted first and the generated tokens after it; a builder error becomes a compile_error next to the item, and when even
+    parsing fails the attribute entry point still hands back the original item followed by the error"""
+    builders = {"build_by_item_struct", "build_by_item_enum", "build_by_item_impl"}
+    ex = eng.executor(opaque_local=builders)
+    ex.trace = _All()
+    fn = eng.find("build")
+    res = ex.run(fn, eng.args_for(fn))
+    obl.note_paths("lib::build", res, ex)
+    seen_builders = set()
+    for r in res:
+        if r.kind != "return":
+            out.inconclusive.append("fn=build reason=%s" % (r.value,))
+            continue
+        names = [e[0] for e in r.events]
+        called = [n for n in names if n in builders]
+        if not called:
+            continue
+        seen_builders.add(called[0])
+        obl.total += 1
+        item_pos = [i for i, e in enumerate(r.events) if e[0].endswith("Item::to_tokens") and "parse2(sym:item)" in e[1][0]]
+        gen_pos = [i for i, e in enumerate(r.events) if e[0] == "ToTokens::TokenStream::to_tokens" and called[0] in e[1][0]]
+        conv = any(e[0] == "Result::unwrap_or_else" and called[0] in e[1][0] for e in r.events)
+        ok_result = isinstance(r.value, mx.Agg) and r.value.variant == "Ok"
+        if item_pos and gen_pos and item_pos[0] < gen_pos[0] and conv and ok_result:
+            obl.discharged += 1
+        else:
+            out.violation("lib-build|%s" % called[0], "-", "lib.rs `build` does not emit the parsed item followed by the generated tokens / the builder's error as compile_error "
+                          "(item first: %s, error converted: %s, result Ok: %s)" % (bool(item_pos and gen_pos and item_pos[0] < gen_pos[0]), conv, ok_result))
+    obl.total += 1
+    if seen_builders == builders:
+        obl.discharged += 1
+    else:
+        out.violation("lib-build|dispatch", "-", "lib.rs `build` does not dispatch struct / enum / impl items to their builders (%s)" % sorted(seen_builders))
+    ex = eng.executor(opaque_local={"build"})
+    ex.trace = _All()
+    fn = eng.find("derive_ex")
+    res = ex.run(fn, eng.args_for(fn))
+    obl.note_paths("lib::derive_ex", res, ex)
+    obl.total += 1
+    ok = len(res) == 2
+    for r in res:
+        v = ex.summ(mx.State(), r.value) if r.kind == "return" else ""
+        err_path = any(e[0].endswith("to_compile_error") for e in r.events)
+        if err_path:
+            ext = [e for e in r.events if e[0].endswith("::extend")]
+            ok = ok and bool(ext) and "sym:item" in ext[0][1][0] and "to_compile_error" in " ".join(ext[0][1][1:]) and "sym:item" in v and "build(" not in v
+        else:
+            ok = ok and "build(" in v
+    if ok:
+        obl.discharged += 1
+    else:
+        out.violation("lib-derive_ex|error-path", "-", "the attribute entry point does not return the original item followed by the error when `build` fails: %s" % (
+            [(r.kind, [e[0].split("::")[-1] for e in r.events]) for r in res],))
+
+
 def replay_failures(obl, out):
     for label, model, info in obl.failed:
         if label.startswith("coverage:"):
@@ -209,6 +270,7 @@ def run(tier):
         check_remove_attrs(eng, obl, out)
         check_entry(eng, obl, out, "struct")
         check_entry(eng, obl, out, "enum")
+        check_lib_entries(eng, obl, out)
         replay_failures(obl, out)
         if tier == "thorough":
             e3.cross_check_solvers(obl, out)
